@@ -132,6 +132,67 @@ def m4(rep):
                           % (var, op, major, ops[major]))
 
 
+# C's default argument promotions change these classes (char, short -> int; float -> double): a function taking one of them
+# cannot be called through an unprototyped pointer (fiCCallN / fiRawCProg cast to t (*)()) and reach an ANSI definition intact.
+PROMOTED = {"char", "schar", "u8", "i8", "i16", "u16", "f32"}
+
+
+def m6(rep):
+    """Old-style and standard C must run the same: gc0FiCFun emits a prototype cast for a closure call whenever one of the
+    argument or result types needs it (gc0TypeRequiresDecl).  For every FOAM type whose C type (foam_c.h) is changed by the
+    default argument promotions the answer must be yes."""
+    import os
+    f = common.extract("genc.c", trees=["gc0TypeRequiresDecl"])
+    fn = f.func("gc0TypeRequiresDecl")
+    sws = [x for x in walk(fn["body"]) if x["k"] == "SwitchStmt"]
+    if len(sws) != 1:
+        raise AnalysisBroken("gc0TypeRequiresDecl: expected one switch")
+    verdict = {}
+    for g in common.switch_cases(sws[0]):
+        labels, stmts = g["labels"], g["stmts"]
+        rets = [y for st in stmts for y in walk(st) if y["k"] == "ReturnStmt"]
+        if len(rets) != 1:
+            raise AnalysisBroken("gc0TypeRequiresDecl: a case group does not end in one return")
+        v = const_value(rets[0]["c"][0])
+        if v is None:
+            raise AnalysisBroken("gc0TypeRequiresDecl: return value not constant")
+        for lab in labels:
+            verdict[lab[0]] = bool(v)
+    tags = [t for t in verdict if t and t.startswith("FOAM_")]
+    if len(tags) < 15:
+        raise AnalysisBroken("gc0TypeRequiresDecl: only %d FOAM type cases recognised" % len(tags))
+    probe = os.path.join(common.BUILD, "c16_probe.%d.c" % os.getpid())
+    hdr = open(os.path.join(common.SRC, "foam_c.h")).read()
+    have = [t for t in tags if re.search(r"\bFi%s;" % t[5:], hdr)]
+    with open(probe, "w") as o:
+        o.write('#include "foam_c.h"\n')
+        for t in have:
+            o.write("Fi%s verif_t_%s;\n" % (t[5:], t[5:]))
+    try:
+        fp = common.extract(probe, "compiler")
+    finally:
+        if os.path.exists(probe):
+            os.unlink(probe)
+    n = 0
+    for t in sorted(have):
+        v = fp.vars.get("verif_t_" + t[5:])
+        if v is None or not v.get("tc"):
+            raise AnalysisBroken("probe: type of Fi%s not obtained" % t[5:])
+        n += 1
+        key = "prototype-needed:%s" % t
+        if v["tc"] in PROMOTED and not verdict[t]:
+            rep.violation("M6", key, "genc.c:%d (gc0TypeRequiresDecl)" % fn["l"],
+                          "Fi%s is `%s` (class %s), which the default argument promotions change, yet gc0TypeRequiresDecl answers "
+                          "false for %s: a closure call with such an argument is emitted through the unprototyped fiCCallN cast, the "
+                          "caller passes the promoted value and the ANSI-style callee reads garbage; -Cold (K&R callee) still works, so "
+                          "the two modes disagree" % (t[5:], v.get("t"), v["tc"], t))
+        else:
+            rep.ok("M6", key, nontrivial=v["tc"] in PROMOTED, sample={"c type": v.get("t"), "class": v["tc"], "requires decl": verdict[t]})
+    rep.floor("FOAM types with a C type examined", n, 12)
+    if not any(fp.vars["verif_t_" + t[5:]]["tc"] in PROMOTED for t in have):
+        raise AnalysisBroken("no FOAM type with a promoted C type found: the probe is not seeing foam_c.h")
+
+
 def m5(rep):
     """Split mode (-Csmax): a name declared without `static` must be unit-qualified (built by gc0MultVarId), because several
     generated files are linked together."""
@@ -251,6 +312,7 @@ def run(tier, only=None):
         raise AnalysisBroken("gc0InitSpecialChars: table initialisation loop not recognised")
     m4(rep)
     m5(rep)
+    m6(rep)
     mx = max(ch for ch, _, _ in rows if ch is not None)
     if mx >= bound:
         rep.violation("M3", "table-chars", "genc.c (ccSpecCharIdTable)", "character %d indexes tables of %d elements" % (mx, bound))
